@@ -251,6 +251,17 @@ func mayAuth(c *Conn) bool {
 //@   ensures c.state == old(c.state)
 //@   exclude serve
 
+// serve: LOGOUT (or the forced logout after an unknown command) ends command
+// processing, and once a back-end session exists it is closed exactly once on
+// every way out (the deferred call is the only Close in the package).
+//
+//@ func (c *Conn) serve()
+//@   props C05:callsite C06:post,callsite
+//@   requires c != nil && c.server != nil
+//@   callsite Conn.readCommand requires c.state != imap.ConnStateLogout
+//@   callsite Session.Close requires !__called("Session.Close")
+//@   ensures[C06] __called("NewSession") && !__failed("NewSession") && c.session != nil ==> __called("Session.Close")
+
 //@ func (c *Conn) checkState(state imap.ConnState) (err error)
 //@   props C05 C06
 //@   ensures err == nil ==> c.state == state || (state == imap.ConnStateAuthenticated && c.state == imap.ConnStateSelected)
@@ -315,6 +326,8 @@ func mayAuth(c *Conn) bool {
 //@   props C04:post,pre@call
 //@   ensures err == nil && !tagHandlerFailed() ==> __ghost("tagged") == old(__ghost("tagged"))+1
 //@   ensures err == nil ==> __ghost("tagged") >= old(__ghost("tagged"))+1 && __ghost("tagged") <= old(__ghost("tagged"))+2
+//@   props C05:post
+//@   ensures[C05] old(c.state) == imap.ConnStateNotAuthenticated && __called("Decoder.DiscardLine") && !__calledPrefix("Conn.handle") ==> c.state == imap.ConnStateLogout && __called("Conn.Bye")
 
 // Explicit panics that guard configuration, not client input.
 
